@@ -30,6 +30,8 @@ def build():
         lock = "/repo/Cargo.lock"
     shutil.copy(lock, os.path.join(crate, "Cargo.lock"))
     env = dict(os.environ); env["CARGO_NET_OFFLINE"] = "true"; env["CARGO_TARGET_DIR"] = TARGET
+    # hooks on: cfg(nundb_verif) exposes http_ops::process_commands to this crate (MANIFEST.hooks)
+    env["RUSTFLAGS"] = (env.get("RUSTFLAGS", "") + " --cfg nundb_verif").strip()
     p = subprocess.run(["cargo", "build", "--offline"], cwd=crate, env=env, capture_output=True, text=True, timeout=1800)
     if p.returncode != 0:
         raise RuntimeError("replay crate does not build against %s: %s" % (REPO, p.stderr[-800:]))
